@@ -346,7 +346,7 @@ impl Property for C41 {
         "release semantics: debug assertions off",
     ];
     const QUICK_CASES: u32 = 4_000_000;
-    const THOROUGH_CASES: u32 = 60_000_000;
+    const THOROUGH_CASES: u32 = 100_000_000;
 
     fn strategy(_tier: Tier) -> BoxedStrategy<Case> {
         let build = (msg_strategy(6), prop_oneof![3 => Just(0u8), 1 => 1u8..=8], prop_oneof![4 => Just(0u8), 1 => 1u8..=40])
